@@ -611,6 +611,8 @@ pub enum BufKind {
     NdView,
     /// a strided `ArrayViewMut1<MaybeUninit<T>>` into a larger buffer (every 2nd slot)
     NdStrided,
+    /// a reversed (stride -1) `ArrayViewMut1<MaybeUninit<T>>`
+    NdReversed,
     /// simulator-owned logging buffer
     Sim,
     /// `UninitVec::set` / `uset` on the owned uninit container, then `assume_init`
@@ -625,6 +627,7 @@ impl BufKind {
             BufKind::Deque => "deque",
             BufKind::NdView => "ndview",
             BufKind::NdStrided => "ndstrided",
+            BufKind::NdReversed => "ndreversed",
             BufKind::Sim => "sim",
             BufKind::OwnedVec => "owned_vec",
         }
@@ -636,6 +639,7 @@ impl BufKind {
             "deque" => BufKind::Deque,
             "ndview" => BufKind::NdView,
             "ndstrided" => BufKind::NdStrided,
+            "ndreversed" => BufKind::NdReversed,
             "sim" => BufKind::Sim,
             "owned_vec" => BufKind::OwnedVec,
             _ => return Err(format!("bad buf {s}")),
